@@ -13,12 +13,28 @@ CHECK = Check(
         "the real packages, every view's metadata (OriginalDims, Dims, Start, Offset, Step, OffsetStep) and Impl window "
         "read by reflection, all results and the final contents of every storage compared exactly with the compiled model",
         "C09 (generated instantiations are the template's expansion) lets the template-level model stand for all 8 element types; "
-        "quick runs float64, thorough all 8 types",
+        "every tier runs all 8 element types on both back-ends; the one place where an instantiation differs from the template - the C back-end of int / uint "
+        "holds C.int / C.uint, 32 bit - is modelled separately (OW/Nd/CInt.lean, applied by the ND driver) and recorded as KF-C01-c-int-width",
         "oracle for the failing-input search: reference semantics written from the property (view = table of root positions)",
         "Go int modelled as Int; Go slice/unsafe pointer semantics trusted",
     ],
     assumptions=["views reachable from roots with extents >= 1 by in-bounds slices with steps >= 1 (Reach); bulk copies between "
-                 "different storages (overlapping source/destination excluded in the footprint theorems, stated there)"],
+                 "different storages (overlapping source/destination excluded in the footprint theorems, stated there)",
+                 "window conditions ArrOK h a on every array (Impl window inside its storage, base >= 0; for C: product of dims <= 1<<30) - established by the "
+                 "constructors under their side conditions (constructors_ok: non-empty shape, extents >= 1, the given storage holds prod dims elements), preserved by "
+                 "every operation (window_conditions_preserved)",
+                 "shape hypotheses of the two-array footprint theorems: copyFrom_footprint needs `hshape : src.v.dims = a.v.dims` (CopyFrom of a differently shaped "
+                 "array is outside the theorem); applySlice_footprint needs the in-bounds request SliceOK a.dims loc src.dims step",
+                 "a C-backed reshape result has Start != 0 (root view from Start) and is therefore NOT a `Reach` view: the C01 theorems do not apply to it directly "
+                 "(C03Full: ReachOff / OffOK / offset_transfer carry them over)",
+                 "C-backed int / uint arrays: values within 32 bits (otherwise KF-C01-c-int-width, scope ND:c-int-width: a written value is not the value read back; "
+                 "OW/Nd/CInt.lean narrow32_id_signed / _unsigned)"],
+    partial=["interleaved_writes_visible_partial: histories are sequences of `Set` only (WriteOp = one Set request; OW/Proofs/NdC01Seq.lean). Histories that interleave Apply / "
+             "ApplySlice / CopyFrom are not covered by a theorem; their footprints are (apply_footprint, applySlice_footprint, copyFrom_footprint: exactly which "
+             "storage cells change and to what), from which visibility through any other view follows cell by cell with get_reads_cell, but the composed statements "
+             "apply_visible / applySlice_visible / copyFrom_visible are not stated",
+             "footprints of the rank-specialised accessors Set1 / Apply1 (and Get1/2/3, Set2/3) are not stated in C01 (Set1 on flat views: OW/Proofs/WrapperNd.lean "
+             "flat_set1; otherwise by the ND correspondence: set1 / apply1 / get2 / set3 ops)"],
 )
 
 META = dict(
@@ -31,6 +47,6 @@ META = dict(
     design_ref="DESIGN.md §6 C01",
     note="Trusted: Lean kernel + propext/Classical.choice/Quot.sound; the correspondence generator and comparison; Int for Go int; "
          "reflection-based reading of view metadata. Sampled side: rank<=3 (4 sampled), extent<=4, step<=3, depth<=3, <=30 ops/program.",
-    technique="Lean 4 proof (stride algebra by induction over rank and slice chains) + differential correspondence model vs real code + model regenerated from the Go source on every run by a translator (gen_eq_* theorems tie it to the hand-written model)",
+    technique="Lean 4 proof (stride algebra by induction over rank and slice chains) + differential correspondence model vs real code + index algebra (Index, SliceInto, Contiguous, integer helpers) regenerated from the Go source on every run by a translator (gen_eq_* theorems tie it to the hand-written model); heap-level operations and the C-specific code hand-written, tied by correspondence",
 )
 READY = True
